@@ -644,6 +644,7 @@ def run(tier):
     rule_R2m(res, prog)
     rule_R1l(res, prog)
     rule_R3b(res, prog)
+    rule_R1m(res, prog)
 
     return res.finish()
 
@@ -854,6 +855,12 @@ def rule_R3b(res, prog):
     tests = [("no handshake message half received", lambda x: cu.ftext(x) in ("ssl->fragMessage", "(ssl->fragMessage != 0)", "(ssl->fragMessage == 0)"))]
     if not prog.defined("SSL_REHANDSHAKES_ENABLED"):
         tests.append(("read keys not active yet", lambda x: cu.ftext(x) == "(ssl->flags & %d)" % RS))
+    if prog.defined("USE_STATELESS_SESSION_TICKETS"):
+        # RFC 5077 3.3: a server that acknowledged the extension MUST send NewSessionTicket before its ChangeCipherSpec; the
+        # client examines the ticket negotiation state of the session id object before it lets the key change through
+        # (the test is made on a client with a session id object: its role / object tests count as the examination for the others)
+        tests.append(("no NewSessionTicket outstanding (ticket state examined)",
+                      lambda x: "sessionTicketState ==" in cu.ftext(x) or cu.ftext(x).strip("!()") in (("ssl->flags & %d" % prog.const("SSL_FLAGS_SERVER")), "ssl->sid", "ssl->sid != 0")))
     for sb in starts:
         for (what, pred) in tests:
             esc = cu.escapes(fn, (sb, None), pred, exempt_edge=dtls_edge, target_expr=lambda x: cu.mentions_call(x, {"sslActivateReadCipher"}))
@@ -866,4 +873,32 @@ def rule_R3b(res, prog):
                                  fn.relfile, esc[-1][1], [p_[1] for p_ in esc[-6:]], what), file=fn.relfile, line=esc[-1][1])
             res.instance(rid, "matrixSslDecodeTls12AndBelow: change_cipher_spec arm tests `%s` before activating the read keys" % what,
                          esc is None, finding=f_)
+    res.floor(rid, 1)
+
+
+
+def rule_R1m(res, prog):
+    """'no foreign message': the admission of a NewSessionTicket hangs on sid->sessionTicketState, which lives in the
+    APPLICATION's session id object and so outlives a connection.  Every ClientHello the TLS <=1.2 encoder writes leaves
+    that field in a state this hello justifies: on every path to a success return the encoder has stored it or examined it
+    (the branch that resets a left-over negotiation state when the extension is not sent)."""
+    from sa import cfgutil as cu
+    rid = "C06.R1m"
+    res.rule(rid, "TLS <= 1.2 client: every ClientHello re-establishes the ticket negotiation state of the (long-lived) session id object")
+    lst = prog.by_name.get("matrixSslEncodeClientHello")
+    if not lst or not prog.defined("USE_STATELESS_SESSION_TICKETS"):
+        res.floor(rid, 0)
+        return
+    fn = lst[0]
+    esc = cu.escapes(fn, (fn.entry, None), lambda x: "sessionTicketState" in cu.ftext(x), is_target=cu.success_ret,
+                     exempt_edge=lambda b, k: any(txt in ("ssl->sid", "(ssl->sid != 0)") and not tr
+                                                  for (txt, tr, nd) in (cu._cond_atoms(b["term"]["c"], k == 0) if b.get("term") and "c" in b["term"] and len(b["succ"]) == 2 else [])))
+    f_ = None
+    if esc is not None:
+        f_ = Finding(PROP, rid, fn.name, "ClientHello written without looking at the ticket state of the session id object",
+                     "%s:%s matrixSslEncodeClientHello(): a success return is reachable (via lines %s) without any store to or test of "
+                     "sid->sessionTicketState: a state left by an earlier connection (extension acknowledged, no ticket sent: RECVD_EXT) survives, "
+                     "and a NewSessionTicket that this connection never negotiated is admitted" % (
+                         fn.relfile, esc[-1][1], [p_[1] for p_ in esc[-6:]]), file=fn.relfile, line=esc[-1][1])
+    res.instance(rid, "matrixSslEncodeClientHello: ticket state stored or examined on every path to success", esc is None, finding=f_)
     res.floor(rid, 1)
